@@ -30,6 +30,11 @@ def content(p: int, c: int) -> str:
         return projects.stringly_member(p, 0)
     if c == 4:
         return "# thailint: ignore-file[magic-numbers]\n" + plain
+    if c == 5:
+        return f"def plain{p}(qty{p}):\n    return qty{p} * {40 + p}  # thailint: ignore[magic-numbers]\n"
+    if c == 6:
+        return (f"# moved down by one line\ndef plain{p}(qty{p}):\n"
+                f"    # thailint: ignore-next-line[magic-numbers]\n    return qty{p} * {40 + p}\n")
     raise ValueError(c)
 
 
@@ -255,13 +260,13 @@ def job_side(job: dict) -> dict:
 def run(chk) -> None:
     quick = chk.tier == "quick"
     drive.preload()
-    chk.rule = ("histories of Write/Delete/LintFile/LintDir/LintFiles over 3 paths x 4 content classes, "
+    chk.rule = ("histories of Write/Delete/LintFile/LintDir/LintFiles over 3 paths x 6 content classes, "
                 "simulated by TLC from Orchestrator.tla and replayed on one real Linter (fresh Linter as "
                 "reference after every call); plus file-order permutations, PYTHONHASHSEED values and "
                 "side-effect snapshots per command; non-trivial = history with >= 2 lint calls and an "
                 "edit between them, or a permutation/seed/side-effect case; distinct by canonical case")
-    chk.assumptions = ["contents are abstracted to 4 classes (plain, DRY block, string-set validation, "
-                       "ignore-file header); the config file is not edited during a history",
+    chk.assumptions = ["contents are abstracted to 6 classes (plain, DRY block, string-set validation, "
+                       "ignore-file header, inline directive at two different lines); the config file is not edited during a history",
                        "fresh-object reference is computed by the same code (relation between runs)"]
     # 1. design model
     r = tlc.run("Orchestrator", "mc/Orchestrator.cfg", workers=min(8, NCPU), coverage=True, timeout=900)
